@@ -199,6 +199,15 @@ def work_smt(snap, model, sysm_kw):
         return (p.key, p.value, tuple(p.branch))
     for tag, b in badkeys:
         acc.call(f"SparseMerkleProof.update({tag}, v, hashes)", lambda b=b: p.update(b, b"w", good_branch), VE, pst, "proof_update")
+    # an update list of the wrong size: shorter than the first differing bit requires (every such length, every differing bit)
+    kint = int.from_bytes(key, "big")
+    for bit in range(8 * n):
+        other = (kint ^ (1 << bit)).to_bytes(n, "big")
+        need = 8 * n - bit  # hashes down to the first differing bit, counted from the root
+        for length in sorted({0, need - 2, need - 1} - {-1, -2}):
+            if 0 <= length < need:
+                acc.call(f"SparseMerkleProof.update(key differing at bit {bit}, v, {length} hashes where {need} are needed)",
+                         lambda other=other, length=length: p.update(other, b"w", good_branch[:length]), VE, pst, "proof_update_length")
     return acc.evals, acc.ok, acc.viols, dict(acc.stats)
 
 
